@@ -25,17 +25,24 @@ def _coq_eval(ctx):
                 "Definition BADACC := Eval vm_compute in map (fun a => (access_key a, a_pos a)) "
                 "(filter (fun a => negb (access_ok_ro (never_written accesses) a)) accesses).\nPrint BADACC.\n"
                 "Definition NBADORD := Eval vm_compute in List.length (bad_orders (rank_of (computed_ranks "
-                "(checked_order known_keys lock_order))) known_keys lock_order).\nPrint NBADORD.\n")
+                "(checked_order known_keys lock_order))) known_keys lock_order).\nPrint NBADORD.\n"
+                # the gate-lock criterion on the acquisition sites (abstract locks included); only
+                # definitions that do not depend on the instance lemma, which fails to build when
+                # the criterion is violated
+                "From AGH Require Import Proofs.ConcGate Proofs.LockTableGate Gen.LockTableAcq.\n"
+                "Definition NBADGATE := Eval vm_compute in List.length (ungated (rank_of acq_rank_hint) "
+                "(sub_hint acq_sub_rank_hints) (checked_sites_of known_keys acquisitions)).\nPrint NBADGATE.\n")
     rc, out = ctx.run(["coqc", "-Q", ctx.COQ, "AGH", "-w", "none", src], cwd=ctx.workdir, timeout=900)
     if rc != 0:
-        return None, None, out
+        return None, None, None, out
     flat = " ".join(out.split())
     m = re.search(r"BADACC = (.*?) : list", flat)
     n = re.search(r"NBADORD = (\d+)", flat)
-    if not m or not n:
-        return None, None, out
+    g = re.search(r"NBADGATE = (\d+)", flat)
+    if not m or not n or not g:
+        return None, None, None, out
     pairs = re.findall(r'\("([^"]*)"(?:%string)?,\s*"([^"]*)"(?:%string)?\)', m.group(1))
-    return pairs, int(n.group(1)), out
+    return pairs, int(n.group(1)), int(g.group(1)), out
 
 
 def _sccs(edges):
@@ -348,10 +355,10 @@ def extra(ctx):
     known = set(tbl.get("known_keys") or [])
 
     # ---- accesses outside their guard, as Coq evaluates them
-    pairs, nbadord, out = _coq_eval(ctx)
+    pairs, nbadord, nbadgate, out = _coq_eval(ctx)
     if pairs is None:
         ctx.fail("proof", "evaluation of bad_accesses on the regenerated table failed", detail=out[-3000:])
-        pairs, nbadord = [], None
+        pairs, nbadord, nbadgate = [], None, None
     bykeypos = {}
     for a in accesses:
         bykeypos.setdefault((a["key"], a["pos"]), a)
@@ -408,6 +415,38 @@ def extra(ctx):
             ctx.fail("property-failure", "known lock-order finding still present at %s" % o["pos"], finding_key=k,
                      failing_input_found=True, detail={"case": {"id": "order-known", "desc": {"pair": o}}})
 
+    # ---- gate-lock criterion on the acquisition sites (abstract locks included): a cycle of
+    # sites that threads can occupy all at once (no common lock held exclusively by one of them)
+    gate = tbl.get("gate_violations") or []
+    if nbadgate is not None and (nbadgate > 0) != (len(gate) > 0):
+        ctx.fail("translator", "cycle search on the acquisition sites and the Coq gate check disagree (Coq: %d sites fail, translator: %d cycles)"
+                 % (nbadgate, len(gate)))
+
+    def short(l):
+        return l.split(".", 1)[1] if l.count(".") >= 2 else l
+    for gv in gate:
+        cyc = gv.get("cycle") or [gv["site"]]
+        # cyc[i] acquires a lock that cyc[i+1] holds; the last one acquires a lock cyc[0] holds
+        acqs = [c["acquires"].rsplit(":", 1)[0] for c in cyc]
+        k = "%s<%s@%s" % (acqs[-1], acqs[0], cyc[0]["fn"])
+        if k in seen:
+            continue
+        seen.add(k)
+        common = None
+        for c in cyc:
+            hs = {h.rsplit(":", 1)[0]: h.rsplit(":", 1)[1] for h in c["held"]}
+            common = hs if common is None else {l: ("W" if "W" in (m, hs[l]) else "R") for l, m in common.items() if l in hs}
+        steps = "; ".join("%s takes %s while holding %s (%s; all held: %s; reached from %s)" % (
+            c["fn"], a, acqs[i - 1], c["pos"], ", ".join(c["held"]) or "nothing", c["root"]) for i, (a, c) in enumerate(zip(acqs, cyc)))
+        what = ("lock-order cycle that no gate excludes: %s; %s" % (
+            steps,
+            ("locks common to all its sites: %s, held shared by all of them, so threads can be at these sites at the same time"
+             % ", ".join("%s (%s)" % (l, m) for l, m in sorted(common.items())) if common else "its sites have no lock in common")))
+        ctx.fail("property-failure", what, finding_key=k, failing_input_found=True,
+                 detail={"case": {"id": _hid("gate", k), "desc": {"kind": "lock-order cycle not excluded by a gate lock", "key": k,
+                                                                 "cycle": cyc, "judged_site": gv["site"],
+                                                                 "abstract_locks": tbl.get("abstract_locks")}}})
+
     # ---- unresolved
     for i, u in enumerate(unresolved):
         ctx.fail("property-failure", "lock table: %s at %s could not be resolved by the translator (the discipline is not established there)"
@@ -431,8 +470,9 @@ def extra(ctx):
     # ---- evidence
     present = {a["key"] for a in accesses} | {okey(o) for o in orders}
     checked_acc = [a for a in accesses if a["key"] not in known]
-    ctx.extra_obligations += len(checked_acc) + len(live) + 1
-    ctx.extra_discharged += (len(checked_acc) - n_bad_new) + (len(live) - len(bad_orders)) + (0 if unresolved else 1)
+    acqs_all = tbl.get("acquisitions") or []
+    ctx.extra_obligations += len(checked_acc) + len(live) + 1 + len(acqs_all)
+    ctx.extra_discharged += (len(checked_acc) - n_bad_new) + (len(live) - len(bad_orders)) + (0 if unresolved else 1) + (len(acqs_all) - (nbadgate or 0))
     fields = sorted({a["field"] for a in accesses})
     ctx.extra_coverage.update({
         "exhaustive": False,
@@ -453,6 +493,14 @@ def extra(ctx):
             # Props/C05.v, C05_current_source_safe(_now): no race and no deadlock for threads conforming
             # to the WHOLE table + acyclic order, in force when nothing is listed
             "whole_table_theorem_in_force": not known,
+            # round 4: external blocking resources as abstract locks + gate-lock criterion
+            "abstract_locks": tbl.get("abstract_locks") or {},
+            "acquisition_sites": len(acqs_all),
+            "acquisition_sites_with_an_abstract_lock": len([x for x in acqs_all if x["acq"] in (tbl.get("abstract_locks") or {})
+                                                            or any(h.rsplit(":", 1)[0] in (tbl.get("abstract_locks") or {}) for h in x.get("held") or [])]),
+            "sites_outside_the_global_ranking_judged_against_compatible_sites": tbl.get("acquisitions_outside_rank_hint") or [],
+            "gate_violations": len(gate),
+            "bbolt_read_transactions_left_out": tbl.get("bbolt_read_transactions_left_out") or {},
             "atomic_fields": tbl.get("atomic_fields") or [],
             "fresh_receiver_helpers": sorted((tbl.get("fresh_receiver_helpers") or {}).keys()),
             "fresh_receiver_accesses_skipped": sorted((tbl.get("fresh_receiver_accesses_skipped") or {}).keys()),
